@@ -166,6 +166,36 @@ pub fn gen_rw_run(check: &str, seed: u64, tier: Tier) -> Run {
             }
         }
     }
+    {
+        // (own stream) wide start term: an alternating add / mul chain over 11-13 distinct variables in no
+        // particular order (classes with up to 13 parameters; the crate's slot maps leave their inline
+        // storage at 10 entries), plus commutativity / associativity steps that move and merge those classes
+        let mut wr = Rng::stream(seed, "wide-la");
+        if wr.chance(1, 14) {
+            let n = 11 + wr.below(3);
+            let mut names: Vec<S> = (40..40 + n as S).collect();
+            wr.shuffle(&mut names);
+            let mut t = Tm::leaf("var", vec![names[0]]);
+            for (i, x) in names.iter().enumerate().skip(1) {
+                let v = Tm::leaf("var", vec![*x]);
+                let op = if (i + wr.below(3)) % 2 == 0 { "add" } else { "mul" };
+                t = if wr.chance(1, 2) { Tm::node(op, vec![], vec![(vec![], v), (vec![], t)]) } else { Tm::node(op, vec![], vec![(vec![], t), (vec![], v)]) };
+            }
+            let pos = run.ops.iter().position(|o| o.name != "add").unwrap_or(run.ops.len());
+            run.ops.insert(pos, Op::new("add").t(t));
+            let kind = if run.ops.iter().any(|o| o.name == "runner") { "runner" } else { "rewrite" };
+            let mut o = Op::new(kind);
+            if kind == "runner" {
+                o = o.i(2);
+            }
+            for r in [0, 2, 1, 3] {
+                o = o.i(r);
+            }
+            run.ops.push(o.clone());
+            run.ops.push(o);
+            run.set("wide_la", 1);
+        }
+    }
     run.set("subst_method", w.below(2) as i64);
     // ExtractionSubst builds an extractor per substitution: quadratic in the e-graph size
     let budgets: &[i64] = match (tier, run.get("subst_method")) {
@@ -481,12 +511,23 @@ fn semantic_check(s: &mut Sess<LA, SimAn>, p: u32, orng: &mut Rng, out: &mut Out
         Err(e) => return Some(viol("C03", "enode_denotes_class", e, at)),
         Ok(n) => out.count("enode_evaluations", n),
     }
+    // classes with more than three slots: lazily evaluated representatives instead of tables
+    let wide = s.eg.ids().iter().any(|i| s.eg.slots(*i).len() > crate::oracle::field::MAX_TABLE_SLOTS);
+    let lv = if wide { Some(crate::oracle::field::lazy_vals(&s.eg)) } else { None };
+    if let Some(lv) = &lv {
+        match crate::oracle::field::check_wide(&s.eg, lv, p, orng.next()) {
+            Err(e) => return Some(viol("C03", "enode_denotes_class", e, at)),
+            Ok(n) => out.count("wide_enode_evaluations", n),
+        }
+    }
     // every inserted term equals its class table, and redundant slots do not matter
     for i in 0..s.tracked.len() {
         let tm = s.tracked[i].tm.clone();
         let h = s.tracked[i].h.clone();
         let f = s.eg.find_applied_id(&h);
-        let Some(tab) = tables.get(&f.id) else { continue };
+        if !tables.contains_key(&f.id) && lv.is_none() {
+            continue;
+        }
         let free = tm.free_vec();
         for _ in 0..6 {
             let mut env: BTreeMap<S, u32> = BTreeMap::new();
@@ -504,7 +545,17 @@ fn semantic_check(s: &mut Sess<LA, SimAn>, p: u32, orng: &mut Rng, out: &mut Out
                     None => return Some(viol("C03", "inserted_term_denotes_class", format!("{tm}: canonical invocation {f:?} mentions a slot that is not free in the term"), at)),
                 }
             }
-            let tv = tab.lookup(&cenv, p);
+            use crate::oracle::field::ClassVals;
+            if let Some(missing) = s.eg.slots(f.id).iter().find(|x| !cenv.contains_key(x)) {
+                return Some(viol("C03", "inserted_term_denotes_class", format!("{tm}: its canonical invocation {f:?} passes nothing for the parameter {missing:?} of its class: the class depends on a slot the term is not told about"), at));
+            }
+            let tv = match tables.get(&f.id) {
+                Some(tab) => tab.lookup(&cenv, p),
+                None => match lv.as_ref().and_then(|lv| lv.class_value(f.id, cenv.clone(), &|_| 0, p)) {
+                    Some(v) => v,
+                    None => break,
+                },
+            };
             out.bump("inserted_term_evaluations");
             if tv != direct {
                 return Some(viol(
